@@ -449,6 +449,9 @@ impl Gen {
                 if ad.len() == 3 && self.rng.chance(1, 2) {
                     // batched right operand with equal leading dimension
                     bd.insert(0, ad[0]);
+                } else if ad.len() == 2 && self.rng.chance(1, 4) {
+                    // a left operand shared by a whole batch of right operands
+                    bd.insert(0, 2 + self.rng.below(2));
                 }
                 let share = self.rng.chance(self.p.share_pct, 100);
                 let b = match if share { self.live_where(sim, |sm, s| Self::dims_of(sm, s) == bd) } else { None } {
@@ -637,7 +640,10 @@ impl Gen {
 
     fn optimizer(&mut self, sim: &Sim) -> Vec<Ev> {
         // parameters: leaves (any shapes); which of them hold a gradient is whatever the history produced
-        let leaves: Vec<Slot> = sim.live_slots().into_iter().filter(|s| !sim.g.nodes[sim.node_of(*s).unwrap()].has_graph).collect();
+        // parameters are usually leaves; sometimes a "parameter" is itself the result of a tracked operation
+        // (a hand-written step): it holds a gradient like any other array and is replaced like any other
+        let with_results = self.rng.chance(12, 100);
+        let leaves: Vec<Slot> = sim.live_slots().into_iter().filter(|s| with_results || !sim.g.nodes[sim.node_of(*s).unwrap()].has_graph).collect();
         if leaves.is_empty() {
             return vec![];
         }
